@@ -1,10 +1,10 @@
-\* C19 keybase, exhaustive: 3 keys (2 held by the client, 1 created inside), 3 passphrases, at most 2 exported
-\* armors kept; every transition is checked against StepOK (VIEW leaves the label and the history out)
+\* C19 keybase, exhaustive: 3 keys (2 held by the client, 1 created inside), 4 passphrases (empty, white space only, a base
+\* passphrase, the base padded with white space), at most 1 exported armor kept; every transition is checked against StepOK (VIEW leaves the label and the history out)
 CONSTANTS
     NK = 3
     NKnown = 2
-    Passes = {"e", "u", "l"}
-    MaxArm = 2
+    Passes = {"e", "w", "u", "v"}
+    MaxArm = 1
     Depth = 0
 SPECIFICATION Spec
 VIEW View
